@@ -23,6 +23,10 @@ from pvc import val as V
 from contracts import spec as SP
 from contracts.C02 import forall_b, forall_n, forall_real, density_spec
 
+# property-level native oracle used as the replay of refuted obligations that carry no model-specific replay
+FALLBACK_REPLAY = {"handler": "bounded", "input": {"what": "prescribed_values"},
+                   "expected": "every prescribed pressure / mass flow / lift is met by the reported results"}
+
 BR = "pandapipes.idx_branch"
 ND = "pandapipes.idx_node"
 CM = "pandapipes.component_models."
@@ -911,3 +915,18 @@ def component_arrays(ctx):
             ctx.ob("%s/entries/directed" % cname, "ensures", a, K.eq_val(bp.f(k, B_DIR), 1))
         else:
             ctx.ob("%s/entries/no-lumped-loss" % cname, "ensures", a, K.eq_val(bp.f(k, B_LC_), 0))
+
+
+
+@unit("C03", "bounded/prescribed_values", functions=["pandapipes.pipeflow:pipeflow"], engine="bounded")
+def prescribed_values_bounded(ctx):
+    """property-level bounded stand-in (and the fallback replay of this property's refuted obligations)"""
+    from pvc.harness import venv_run
+    inp = {"what": "prescribed_values"}
+    res = venv_run("bounded.py", inp, timeout=3000)
+    ctx.bounded("prescribed-values-are-met-by-the-reported-results", res["ok"],
+                "8 calculations (use_numba False/True): water net with two ext grids on one junction + one out of service (mean), active "
+                "and inactive flow controller, pressure controller, scaled / out-of-service loads, non-positional labels; circulation "
+                "pump loops (pressure, mass) with an out-of-service pump of other set-points on the same flow junction, sequential mode; "
+                "gas net with two pumps of different type (first out of service), compressor, different junction temperatures",
+                res["cases"], witness=res["witness"], replay={"handler": "bounded", "input": inp} if not res["ok"] else None)
